@@ -7,6 +7,7 @@ import (
 	"bytes"
 	"encoding/json"
 	"fmt"
+	"io"
 	"os"
 )
 
@@ -29,9 +30,27 @@ func Create(path string) (*Writer, error) {
 	return &Writer{f: f, w: bufio.NewWriterSize(f, 1<<20)}, nil
 }
 
+// NewTo writes a trace to an arbitrary stream (used by isolated worker processes).
+func NewTo(w io.Writer) *Writer {
+	return &Writer{w: bufio.NewWriterSize(w, 1<<16)}
+}
+
+// Flush flushes buffered lines.
+func (t *Writer) Flush() error { return t.w.Flush() }
+
+// Raw appends one already-encoded line (produced by a worker's Writer, hence already checked).
+func (t *Writer) Raw(line []byte) {
+	t.w.Write(line)
+	t.w.WriteByte('\n')
+	t.Lines++
+}
+
 func (t *Writer) Close() error {
 	if err := t.w.Flush(); err != nil {
 		return err
+	}
+	if t.f == nil {
+		return nil
 	}
 	return t.f.Close()
 }
